@@ -158,8 +158,8 @@ func (s *Sched) threadName(point, name string, id uint64) string {
 // Park parks the calling goroutine at point with the given answers and returns the chosen answer index.
 func (s *Sched) Park(point, name string, answers []string) int {
 	id := goid()
-	if id == s.self {
-		return 0 // the scheduler's own goroutine (scenario set-up code) never parks
+	if id == s.self || s.stale[id] {
+		return 0 // the scheduler's own goroutine (scenario set-up code) and leftovers of earlier executions never park
 	}
 	t := s.threadName(point, name, id)
 	s.mu.Lock()
@@ -525,4 +525,28 @@ func AllInterleavings(s *Sched, parked []*P) []Choice {
 		}
 	}
 	return append(cur, out...)
+}
+
+// WaitGone waits until the managed goroutines of this execution have exited or
+// are blocked for good (after cancellation and Drain), so that they cannot
+// walk into the hooks of the next execution.
+func (s *Sched) WaitGone(timeout time.Duration) (left []GInfo) {
+	deadline := time.Now().Add(timeout)
+	for {
+		busy := false
+		left = left[:0]
+		for _, g := range s.Snapshot() {
+			if !g.Managed || s.stale[g.ID] || g.ID == s.self {
+				continue
+			}
+			left = append(left, g)
+			if !isBlockedState(g.State) {
+				busy = true
+			}
+		}
+		if !busy || time.Now().After(deadline) {
+			return left
+		}
+		time.Sleep(200 * time.Microsecond)
+	}
 }
